@@ -133,11 +133,23 @@ def wrap_impure_func(func):
 
 
 # noinspection PyUnusedLocal
+def _finite(res):
+    if isinstance(res, (float, np.floating)):
+        return res if np.isfinite(res) else Error.errors['#NUM!']
+    if isinstance(res, np.ndarray) and res.size and res.dtype.kind in 'fO':
+        for i, v in np.ndenumerate(res):
+            if isinstance(v, (float, np.floating)) and not np.isfinite(v):
+                if res.dtype.kind == 'f':
+                    res = res.astype(object)
+                res[i] = Error.errors['#NUM!']
+    return res
+
+
 def wrap_func(func, ranges=False):
     def wrapper(*args, **kwargs):
         # noinspection PyBroadException
         try:
-            return func(*args, **kwargs)
+            return _finite(func(*args, **kwargs))
         except FoundError as ex:
             return np.asarray([[ex.err]], object)
         except InvalidRangeError:
